@@ -261,8 +261,10 @@ def Hop.complete (hop : Hop F) (maxSamples : Nat) (c : Complete) : Hop F :=
   let worst := match hop.worst with
     | none => some dur
     | some d => some (max d dur)
-  let mean := hop.mean + (durMs - hop.mean) / Num.ofNat totalRecv
-  let m2 := hop.m2 + (durMs - mean) * (durMs - mean)
+  -- Welford: `let delta = dur_ms - hop.mean; hop.mean += delta / n; hop.m2 += delta * (dur_ms - hop.mean)`
+  let delta := durMs - hop.mean
+  let mean := hop.mean + delta / Num.ofNat totalRecv
+  let m2 := hop.m2 + delta * (durMs - mean)
   { hop with
     ttl := c.probe.ttl, totalSent := totalSent, totalRecv := totalRecv, totalTime := totalTime,
     jitter := jitter, javg := javg, jinta := jinta, jmax := jmax, last := some dur,
